@@ -224,3 +224,71 @@ Theorem garbage_on_topic_is_dropped :
         = arrivals_ops cid_no peer_decode addr_parse host f (l1 ++ l2)).
 Proof. exact garbage_on_topic_is_dropped_lemma. Qed.
 Print Assumptions garbage_on_topic_is_dropped.
+
+(* The duplicate filter is keyed by the CID: with any injective numbering of CIDs (the code
+   uses Cid.String()), an announcement whose CID is not among the CIDs seen is delivered,
+   whatever it shares with them - CIDv0 and CIDv1 of one digest, or two codecs over one
+   multihash, are different CIDs ([same_multihash_two_cids] in the proofs). *)
+Theorem unseen_cid_is_delivered_whatever_its_multihash :
+  forall (cid_no : cid -> N), (forall a b, cid_no a = cid_no b -> a = b) ->
+  forall cf s (seen : list cid) (c : cid) a,
+  closed s = false -> out s = None ->
+  lru s = map cid_no seen -> ~ In c seen -> a_cid a = cid_no c ->
+  exists s', seq_step cf s (ODirect true a false) = [(RNil, s')]
+    /\ out s' = Some (filter_addrs cf a).
+Proof. exact unseen_cid_is_delivered. Qed.
+Print Assumptions unseen_cid_is_delivered_whatever_its_multihash.
+
+(* ---- ties to the Gallina regenerated from the Go source (proofs/GenTie_C09.v) ---- *)
+From Coq Require Import ZArith NArith List Bool Lia String.
+From Lib Require Import Bytes.
+From Model Require Import Announce_Receiver.
+From Proofs Require Import GenTie_Lib.
+From Gen Require Import Gen_Consts Gen_Funcs_prelude Gen_Funcs_announce.
+Import ListNotations.
+Local Open Scope Z_scope.
+From Proofs Require Import GenTie_C09.
+
+Theorem gen_tie_stringLRU_update : forall (E : Type) (elem : E) (cap : nat) (c : N) (l : list N),
+  match announce_stringLRU_update E elem (len l) (memN c l) (Z.of_nat cap) with
+  | FReturn ret tr =>
+      ret = (if fst (lru_update cap c l) then "return true" else "return false")%string /\
+      lru_run c tr l = snd (lru_update cap c l)
+  | _ => False
+  end.
+Proof. exact GenTie_C09.tie_stringLRU_update. Qed.
+Print Assumptions gen_tie_stringLRU_update.
+
+Theorem gen_tie_stringLRU_remove : forall (E : Type) (elem : E) (c : N) (l : list N),
+  match announce_stringLRU_remove E elem (memN c l) with
+  | FReturn ret tr =>
+      ret = (if memN c l then "return true" else "return false")%string /\
+      (memN c l = true -> lru_run c tr l = lru_remove c l) /\ (memN c l = false -> tr = [])
+  | _ => False
+  end.
+Proof. exact GenTie_C09.tie_stringLRU_remove. Qed.
+Print Assumptions gen_tie_stringLRU_remove.
+
+Theorem gen_seq_step_front : forall c s allowed a cancelled,
+  match model_front allowed (closed s) (fst (lru_update (cap c) (a_cid a) (lru s))) with
+  | Some o => exists s', seq_step c s (ODirect allowed a cancelled) = [(o, s')]
+  | None => True
+  end.
+Proof. exact GenTie_C09.seq_step_front. Qed.
+Print Assumptions gen_seq_step_front.
+
+Theorem gen_tie_direct_front : forall (T A : Type) (isnil : T -> bool) (allow : T) (called closed hit : bool)
+    (addrs filtered : list A) (filter resend : bool) (rep : option string),
+  (* allowed = no allow-callback configured, or the callback said yes *)
+  go_front T A isnil allow called closed hit addrs filtered filter resend rep
+  = model_front (isnil allow || called) closed hit.
+Proof. exact GenTie_C09.tie_direct_front. Qed.
+Print Assumptions gen_tie_direct_front.
+
+Theorem gen_handleAnnounce_filters : forall (A : Type) (addrs filtered : list A) (filter resend : bool) rep,
+  match announce_handleAnnounce_front A resend None rep addrs filtered filter with
+  | FFall tr => In "amsg.Addrs = mautil.FilterPublic(amsg.Addrs)"%string tr <-> filter = true
+  | _ => False
+  end.
+Proof. exact GenTie_C09.handleAnnounce_filters. Qed.
+Print Assumptions gen_handleAnnounce_filters.
